@@ -546,3 +546,263 @@ def check_C06(P, tier, SA, holder):
     c0 = d0.coeff("flx")
     R.analysed = {"files": ["src/bldfm/solver.py", "src/bldfm/fft_manager.py"], "functions": ["steady_state_transport_solver", "ivp_solver"], "paths": SA.nruns}
     return R, "Fourier-multiplier typestate + phase normal form"
+
+
+# --------------------------------------------------------------------------
+
+
+@solver_check
+def check_C07(P, tier, SA, holder):
+    R = holder["R"] = Result("C07", tier)
+    R.min_obligations = 30
+    R.explanation = ("(R-UNITS) dimensional homogeneity of the canonical forms: with S-SIG's dimensions (lengths L, winds L/T, diffusivities L^2/T, source F, "
+                     "background F T/L) every sum in the layer matrix and in the output coefficients joins like quantities, every exp/log/int argument is a pure "
+                     "number, the flux coefficient is [F] and the concentration [F T/L] (resp. 1 and T/L per unit source in footprint mode); by Buckingham-pi the "
+                     "solver is then exactly invariant under the two similarity groups of the property. (R-SIGMA) exchanging the x- and y-role atoms of S-SIG "
+                     "(sizes, extents, mode counts, tower coordinates, wind components, horizontal diffusivities, FFT indices) maps the layer matrix and every "
+                     "output coefficient to itself, and the array-axis roles are fixed by shapes ((ny,nx), meshgrid order, pad/crop positions). (R-MIRROR) the "
+                     "layer matrix and transfer function are invariant under (k_x,u)->-(k_x,u) and (k_y,v)->-(k_y,v). Nyquist components and rounding are not decided.")
+    R.trusted = [TRUST_NUMPY, TRUST_ALG, "Buckingham pi theorem: dimensionally homogeneous => invariant under unit rescaling", "fft2 of a transposed array is the transpose of fft2 (S-NUMPY)"]
+    S, vd = views(SA, False, False, "generic")
+    d0 = _prepare(_one(pick(vd, shifted=False), "dispersion unshifted"))
+    L = d0.roles["loop"]
+    ip, iq = L.state.index(d0.roles["p"]), L.state.index(d0.roles["q"])
+    sig = RS.sigma_map(S)
+    site_l = "src/bldfm/solver.py::ivp_solver::vertical sweep"
+    names = {(ip, ip): "(p<-p)", (ip, iq): "(p<-q)", (iq, ip): "(q<-p)", (iq, iq): "(q<-q)"}
+    U = RS.Units(S, roles=(ip, iq))
+    want_m = {(ip, ip): {}, (iq, iq): {}, (ip, iq): {"T": 1, "L": -1}, (iq, ip): {"L": 1, "T": -1}}
+    for (r, c), nm in names.items():
+        e = L.matrix[(L.state[r], L.state[c])]
+        if not isinstance(e, Expr):
+            R.add(req_ob("R-UNITS", site_l, "layer matrix entry %s algebraic" % nm, None))
+            continue
+        ee = e.expand()
+        R.add(RS.units_ob(U, "R-UNITS", site_l, "layer matrix entry %s" % nm, ee, want_m[(r, c)]))
+        R.add(eq_ob("R-SIGMA", site_l, "layer matrix entry %s is invariant under the exchange of the x and y roles" % nm, ee.subs(sig), ee, "S-PDE is symmetric under (x,u,Kx)<->(y,v,Ky)"))
+        for ax in ("x", "y"):
+            R.add(eq_ob("R-MIRROR", site_l, "layer matrix entry %s is even under (k_%s, wind_%s) -> -(k_%s, wind_%s)" % (nm, ax, ax, ax, ax), ee.subs(RS.mirror_map(S, ee, ax)), ee))
+    for fp in (False, True):
+        for an in (False, True):
+            for ctx in ("generic", "mean"):
+                S, vs = views(SA, fp, an, ctx)
+                for v in pick(vs, shifted=None):
+                    if not an:
+                        _prepare(v) if ctx == "generic" else None
+                    site = v.site("output coefficient (footprint=%s analytic=%s %s mode%s)" % (fp, an, ctx, ", shifted" if v.shifted() else ""))
+                    Fd = {} if fp else {"F": 1}
+                    for nm, want in (("flx", dict(Fd)), ("conc", RS._dadd(Fd, {"T": 1, "L": -1}))):
+                        c = v.coeff(nm)
+                        if not isinstance(c, Expr):
+                            R.add(req_ob("R-UNITS", site, "%s coefficient algebraic" % nm, None, detail=repr(c)))
+                            continue
+                        if fp and nm == "conc" and ctx == "mean":
+                            # background [F T/L] is added to a per-unit-source quantity [T/L]: the unit source carries F=1
+                            U2 = RS.Units(S, roles=(ip, iq))
+                            U2.sym[atom_of(S.p000).id] = {"T": 1, "L": -1}
+                            R.add(RS.units_ob(U2, "R-UNITS", site, "%s coefficient" % nm, c, want))
+                        else:
+                            R.add(RS.units_ob(U, "R-UNITS", site, "%s coefficient" % nm, c, want))
+                        cn = RS.neutralise_source(c, S)
+                        R.add(eq_ob("R-SIGMA", site, "%s coefficient is invariant under the exchange of the x and y roles" % nm, cn.subs(sig), cn, key={"out": nm}))
+    # mirror of the transfer function (unshifted dispersion)
+    for nm in ("flx", "conc"):
+        c = RS.neutralise_source(d0.coeff(nm), S)
+        if isinstance(c, Expr):
+            for ax in ("x", "y"):
+                R.add(eq_ob("R-MIRROR", d0.site("transfer function"), "%s transfer function is even under (k_%s, wind_%s) -> -(k_%s, wind_%s)" % (nm, ax, ax, ax, ax), c.subs(RS.mirror_map(S, c, ax)), c))
+    # axis roles by shape: grid and outputs
+    for fp in (False, True):
+        S, vs = views(SA, fp, False, "generic")
+        v = _one(pick(vs, shifted=None if fp else False), "path")
+        R.add(crop_obligations(v, "R-AXES", fp))
+        R.add(RS.event_obs(v, "R-AXES", ("shape",), "all elementwise operations and mask indexings are shape-consistent for nx != ny, nlx != nly (footprint=%s)" % fp))
+    # the default halo is sigma-symmetric
+    S, vh = views(SA, True, False, "generic", halo="none")
+    h = _one(pick(vh), "default halo")
+    for nm in ("flx",):
+        c = h.coeff(nm)
+        if isinstance(c, Expr):
+            R.add(eq_ob("R-SIGMA", h.site("default halo"), "footprint coefficient with the default halo is invariant under the exchange of the x and y roles", c.subs(sig), c))
+    R.analysed = {"files": ["src/bldfm/solver.py"], "functions": ["steady_state_transport_solver", "ivp_solver"], "paths": SA.nruns}
+    return R, "dimensional homogeneity; sigma-closure; mirror evenness of normal forms"
+
+
+@solver_check
+def check_C10(P, tier, SA, holder):
+    R = holder["R"] = Result("C10", tier)
+    R.min_obligations = 30
+    R.explanation = ("(R-LVL-STATE) in each sweep the value stored for a requested node is the loop-carried state at the head of that node's iteration (before the "
+                     "layer update), the slot is the running counter incremented after the store, and the top node is stored after the loop from the final state; "
+                     "(R-LVL-ORDER) the counter idiom is sound only for a strictly ascending list: the list tested by `in` must be provably sorted-unique "
+                     "(np.unique) and the outputs must be gathered back through the inverse permutation, so that the spectral coefficient of slot k depends on "
+                     "the level only through levels[k] of the caller's list - the same element whose height z[levels[k]] is returned; (R-LVL-SIBLING) all level "
+                     "consumers (both auxiliary sweeps, mean sweep, analytic heights, returned Z) see the same sequence; (R-SHAPE) every elementwise operation, "
+                     "mask indexing and store is broadcast-compatible for an arbitrary number of levels in all four mode combinations and for a scalar level.")
+    R.trusted = [TRUST_NUMPY, TRUST_ALG, "np.unique(x, return_inverse=True): U sorted strictly ascending and U[inv] == x"]
+    lev_req = None
+    for fp in (False, True):
+        for an in (False, True):
+            for ctx in ("generic", "mean"):
+                S, vs = views(SA, fp, an, ctx)
+                lev_req = RS.level_atom(S)
+                for v in pick(vs, shifted=None)[:1]:
+                    tag = "(footprint=%s analytic=%s %s mode)" % (fp, an, ctx)
+                    R.add(RS.event_obs(v, "R-SHAPE", ("shape",), "operations are broadcast-compatible for any number of levels %s" % tag, v.site("whole function " + tag)))
+                    R.add(RS.event_obs(v, "R-LVL-STATE", ("unsupported", "loop-nonlinear"), "level bookkeeping uses only the recognised store/counter idiom %s" % tag, v.site("level bookkeeping " + tag)))
+                    # outputs depend on the level only through the caller's list element
+                    for nm in ("conc", "flx"):
+                        c = v.coeff(nm)
+                        if not isinstance(c, Expr):
+                            R.add(req_ob("R-LVL-ORDER", v.site("output " + tag), "%s coefficient algebraic" % nm, None, detail=repr(c)))
+                            continue
+                        others = [a for a in c.atoms() if a.kind == "fn" and a.name == "elem" and a is not atom_of(lev_req) and not a.args[0].eq(S.srf_flx.sym)]
+                        R.add(req_ob("R-LVL-ORDER", v.site("output " + tag), "slot k of %s is a function of levels[k] of the caller's list (not of a sorted copy)" % nm, not others,
+                                     detail="; ".join(map(repr, others)) or None, key={"out": nm}))
+                    R.add(eq_ob("R-LVL-SIBLING", v.site("returned heights " + tag), "returned height of slot k is z[levels[k]]", v.Z.val, S.z.at(lev_req)))
+                    a = v.Z
+                    shp = a.meta.get("presqueeze_shape", a.shape)
+                    R.add(req_ob("R-LVL-SIBLING", v.site("returned heights " + tag), "height grid has one slice per requested level", shp is not None and shp[0].eq(S.nlev), detail=repr(shp)))
+                    if not an:
+                        R.add(level_store_obligations(v, S, ctx))
+    # scalar level: squeezed 2-D outputs, same value
+    for fp in (False, True):
+        for an in (False, True):
+            S, vs = views(SA, fp, an, "generic", levels_kind="scalar")
+            v = _one(pick(vs, shifted=None if fp else False), "scalar level")
+            tag = "(scalar level, footprint=%s analytic=%s)" % (fp, an)
+            R.add(RS.event_obs(v, "R-SHAPE", ("shape", "unsupported"), "scalar level argument is handled %s" % tag, v.site("whole function " + tag)))
+            R.add(eq_ob("R-LVL-SIBLING", v.site("returned heights " + tag), "returned height is z[level]", v.Z.val, S.z.at(RS.level_atom(S))))
+            shp = v.flx.shape
+            R.add(req_ob("R-SHAPE", v.site("outputs " + tag), "a scalar level returns 2-D (ny, nx) fields", shp is not None and len(shp) == 2 and shp[0].eq(S.ny) and shp[1].eq(S.nx), detail=repr(shp)))
+    R.analysed = {"files": ["src/bldfm/solver.py"], "functions": ["steady_state_transport_solver", "ivp_solver"], "paths": SA.nruns}
+    return R, "loop-state reaching definitions, counter-idiom guard, shape typing"
+
+
+def level_store_obligations(v, S, ctx):
+    obs = []
+    loops = [L for L in v.r.loops if L.level_stores]
+    want = 2 if ctx == "generic" else 1
+    site0 = v.site("level bookkeeping")
+    relevant = []
+    for L in loops:
+        pts = {ls.point for ls in L.level_stores}
+        if ctx in pts:
+            relevant.append(L)
+    if ctx == "generic":
+        relevant = [L for L in relevant if L.kind == "linear"]
+    if len(relevant) < want:
+        obs.append(req_ob("R-LVL-STATE", site0, "%d sweep(s) store per-level results at the %s mode" % (want, ctx), None if not relevant else False, detail="%d found" % len(relevant)))
+        return obs
+    for L in relevant:
+        site = "src/bldfm/solver.py::%s::level stores of sweep %d" % (L.function, L.id)
+        ins = [ls for ls in L.level_stores if ls.in_loop and ls.point == ctx]
+        outs = [ls for ls in L.level_stores if not ls.in_loop and ls.point == ctx]
+        i = L.rng.start + alg.atom_expr(L.ivar) * L.rng.step
+        fin = L.state_at(L.rng.count) if getattr(L, "state_at", None) and L.linear else None
+        for ls in ins:
+            # guard: loop node index in the level list
+            obs.append(eq_ob("R-LVL-STATE", site, "store into %s is guarded by membership of the current node index" % ls.array, ls.guard.value, i))
+            cont = ls.guard.container
+            su = isinstance(cont, Arr) and bool(cont.meta.get("sorted_unique"))
+            obs.append(req_ob("R-LVL-ORDER", site, "the list tested by the counter idiom for %s is provably strictly ascending (sorted unique)" % ls.array, su,
+                              detail=None if su else "level list reaching the sweep is %s; slots follow ascending node order while heights follow the caller's order" % (cont.name if isinstance(cont, Arr) else cont), key={"array": ls.array}))
+            # value: a loop-head atom
+            heads = {a.id: k for k, (a, _) in L.head.items()}
+            val = ls.value
+            okv = isinstance(val, Expr) and val.as_mono() is not None and len(val.as_mono()[1]) == 1 and val.as_mono()[1][0][0].id in heads and val.as_mono()[0] == alg.C1
+            var = heads.get(val.as_mono()[1][0][0].id) if okv else None
+            obs.append(req_ob("R-LVL-STATE", site, "value stored in %s is the carried state before the layer update" % ls.array, okv, detail=None if okv else "stored %r" % (val,), key={"array": ls.array}))
+            cnt = [k for k, a0 in L.counters.items() if isinstance(ls.slot, Expr) and ls.slot.eq(a0)]
+            obs.append(req_ob("R-LVL-STATE", site, "slot of %s is the running counter, incremented after the store" % ls.array, bool(cnt), detail=None if cnt else "slot %r" % (ls.slot,)))
+            # matching post-loop store
+            match = [o for o in outs if o.array == ls.array]
+            covers_all = L.rng.count.eq(S.nz)
+            if covers_all:
+                continue
+            if not match:
+                obs.append(req_ob("R-LVL-STATE", site, "the top node of %s is stored after the sweep" % ls.array, False, detail="no store under a membership test after the loop"))
+                continue
+            o = match[0]
+            obs.append(eq_ob("R-LVL-STATE", site, "post-sweep store of %s is guarded by membership of the top node" % ls.array, o.guard.value, L.rng.start + L.rng.count * L.rng.step))
+            obs.append(eq_ob("R-LVL-STATE", site, "sweep plus post-sweep store cover nodes 0..nz-1", L.rng.count + ONE, S.nz))
+            if var is not None and fin is not None and var in fin:
+                obs.append(eq_ob("R-LVL-STATE", site, "post-sweep store of %s holds the final state of the same variable" % ls.array, o.value, fin[var]))
+            same_cont = o.guard.container is ls.guard.container or (isinstance(o.guard.container, Arr) and isinstance(ls.guard.container, Arr) and o.guard.container.meta.get("ident") == ls.guard.container.meta.get("ident") and o.guard.container.meta.get("ident") is not None)
+            obs.append(req_ob("R-LVL-SIBLING", site, "in-sweep and post-sweep stores of %s test the same level list" % ls.array, same_cont))
+    return obs
+
+
+@solver_check
+def check_C11(P, tier, SA, holder):
+    R = holder["R"] = Result("C11", tier)
+    R.min_obligations = 40
+    R.explanation = ("(R-SHAPE-OUT) on every non-raising path (all clamp outcomes, both modes, given and default halo) the returned fields have exactly the shape "
+                     "(levels, ny, nx) of the surface-flux field and the coordinates i*dx, j*dy - decided with symbolic integer shapes; (R-PARITY) every "
+                     "floor-division used as a symmetric truncation/pad width is exact on the non-raising paths because a dominating guard establishes the parity "
+                     "(the guard facts enter the shape algebra; without them the padded length differs from the grid length and R-SHAPE-OUT fails); (R-LOWPASS) "
+                     "truncation and re-padding are the same symmetric window in centred layout, so components strictly inside the cut-off are untouched; "
+                     "(R-CLAMP) when a requested mode count exceeds the padded size the effective count on that axis is the padded size (both the per-axis and the "
+                     "documented joint 'setting both equal' clamp are accepted), and when none exceeds the counts are unchanged.")
+    R.trusted = [TRUST_NUMPY, TRUST_ALG]
+    for halo in ("given", "none"):
+        for fp in (False, True):
+            S, vs = views(SA, fp, False, "generic", halo=halo)
+            S2, res = SA.run(fp, False, "generic", halo=halo)
+            raises = [r for r in res if r.kind == "raise"]
+            R.add(req_ob("R-PARITY", "src/bldfm/solver.py::steady_state_transport_solver::guards (footprint=%s, halo %s)" % (fp, halo),
+                         "inadmissible parities are rejected by raising (guards dominate the truncation)", len(raises) >= 2, detail="%d raising paths" % len(raises)))
+            for v in vs:
+                if not fp and v.shifted():
+                    continue
+                tag = "(footprint=%s, halo %s, clamp=%s)" % (fp, halo, v.clamp_state())
+                for nm in ("conc", "flx"):
+                    a = getattr(v, nm)
+                    shp = a.meta.get("presqueeze_shape", a.shape)
+                    want = (S.nlev, S.ny, S.nx)
+                    ok = shp is not None and len(shp) == 3 and all(x.eq(y) for x, y in zip(shp, want))
+                    R.add(req_ob("R-SHAPE-OUT", v.site("outputs " + tag), "%s has exactly the shape of the surface-flux field" % nm, ok, detail=None if ok else "shape %r, expected %r" % (shp, want), key={"out": nm, "footprint": fp}))
+                    fd = [x for x in (shp or ()) for at in x.expand().atoms() if at.kind == "fn" and at.name == "floordiv"]
+                    R.add(req_ob("R-PARITY", v.site("outputs " + tag), "no inexact floor-division survives in the shape of %s" % nm, not fd, detail="; ".join(map(repr, fd))[:200] or None, key={"out": nm, "footprint": fp}))
+                R.add(eq_ob("R-SHAPE-OUT", v.site("grid " + tag), "x coordinates are i*dx", v.X.val, alg.fn("idx", S.nx, integer=True) * v.dx))
+                R.add(eq_ob("R-SHAPE-OUT", v.site("grid " + tag), "y coordinates are j*dy", v.Y.val, alg.fn("idx", S.ny, integer=True) * v.dy))
+                R.add(RS.event_obs(v, "R-LOWPASS", ("typestate", "shape"), "truncation, padding and layout are consistent " + tag, v.site("spectral truncation " + tag)))
+                # re-padding restores the padded grid
+                sy = v.fields["flx"]["synth"]
+                if sy.get("kept") and sy.get("respec_pad"):
+                    for k, axn in ((0, "y"), (1, "x")):
+                        b, a_ = sy["respec_pad"][k]
+                        N = (v.Ny, v.Nx)[k]
+                        grid = (S.ny + 2 * v.py, S.nx + 2 * v.px)[k]
+                        R.add(eq_ob("R-LOWPASS", v.site("untruncation " + tag), "%s: kept modes + 2*pad width equals the padded grid size" % axn, sy["kept"][k] + b + a_, grid))
+                        R.add(eq_ob("R-LOWPASS", v.site("untruncation " + tag), "%s: re-padding is symmetric" % axn, b, a_))
+                    if not fp:
+                        tr = [e[2] for e in v.r.events if e[0] == "spec-truncate"]
+                        R.add(req_ob("R-LOWPASS", v.site("truncation " + tag), "the source spectrum is truncated once per axis", len(tr) == 2, detail="%d slices" % len(tr)))
+                        for t in tr:
+                            k = t["axis"]
+                            R.add(eq_ob("R-LOWPASS", v.site("truncation " + tag), "axis %d: truncation window is symmetric about the zero frequency" % k, t["lo"], t["dim"] - t["hi"]))
+                            R.add(eq_ob("R-LOWPASS", v.site("truncation " + tag), "axis %d: truncation offset equals the re-padding width" % k, t["lo"], sy["respec_pad"][k][0]))
+                            R.add(eq_ob("R-LOWPASS", v.site("truncation " + tag), "axis %d: window length equals the effective mode count" % k, t["hi"] - t["lo"], sy["kept"][k]))
+                else:
+                    R.add(req_ob("R-LOWPASS", v.site("untruncation " + tag), "the truncated spectrum is re-padded before the output transform", None, detail="no re-padding found"))
+                # clamp decision table
+                cx, cy = v.clamp_state()
+                ex, ey = v.nlx_eff, v.nly_eff
+                site = v.site("mode clamp " + tag)
+                if cx is False and cy is False:
+                    R.add(eq_ob("R-CLAMP", site, "x mode count unchanged when it fits", ex, S.nlx))
+                    R.add(eq_ob("R-CLAMP", site, "y mode count unchanged when it fits", ey, S.nly))
+                else:
+                    if cx is True:
+                        R.add(eq_ob("R-CLAMP", site, "x mode count clamped to the padded size", ex, v.Nx))
+                    if cy is True:
+                        R.add(eq_ob("R-CLAMP", site, "y mode count clamped to the padded size", ey, v.Ny))
+                    if cx is True and cy is not True:
+                        okj = ey.eq(v.Ny) or ey.eq(S.nly) or ey.eq(alg.fmin(S.nly, v.Ny.expand()))
+                        R.add(req_ob("R-CLAMP", site, "y mode count is the padded size (joint clamp) or its own clamp when only x exceeds", okj, detail="effective %r" % (ey,)))
+                    if cy is True and cx is not True:
+                        okj = ex.eq(v.Nx) or ex.eq(S.nlx) or ex.eq(alg.fmin(S.nlx, v.Nx.expand()))
+                        R.add(req_ob("R-CLAMP", site, "x mode count is the padded size (joint clamp) or its own clamp when only y exceeds", okj, detail="effective %r" % (ex,)))
+    R.analysed = {"files": ["src/bldfm/solver.py"], "functions": ["steady_state_transport_solver"], "paths": SA.nruns}
+    return R, "symbolic shapes with parity facts; clamp decision tables; truncation typestate"
